@@ -55,8 +55,8 @@ class XsdSimpleType(XsdType, ValidationMixin[str | bytes, DecodedValueType]):
     """
     _special_types = {nm.XSD_ANY_TYPE, nm.XSD_ANY_SIMPLE_TYPE}
     _ADMITTED_TAGS: tuple[str, ...] = nm.XSD_SIMPLE_TYPE,
-    _REGEX_SPACE = re.compile(r'\s')
-    _REGEX_SPACES = re.compile(r'\s+')
+    _REGEX_SPACE = re.compile(r'[\t\n\r]')  # XML whitespace only (with #x20)
+    _REGEX_SPACES = re.compile(r'[ \t\n\r]+')
     _facets: dict[str | None, FacetsValueType]
 
     abstract: bool = False
@@ -458,7 +458,7 @@ class XsdSimpleType(XsdType, ValidationMixin[str | bytes, DecodedValueType]):
             case 'replace':
                 return self._REGEX_SPACE.sub(' ', text)
             case 'collapse':
-                return self._REGEX_SPACES.sub(' ', text).strip()
+                return self._REGEX_SPACES.sub(' ', text).strip(' ')
             case _:
                 return text
 
@@ -989,7 +989,9 @@ class XsdList(XsdSimpleType):
     def raw_decode(self, obj: str | bytes, validation: str, context: ValidationContext) \
             -> list[AtomicValueType | None]:
         items = []
-        for chunk in self.normalize(obj).split():
+        for chunk in self.normalize(obj).split(' '):
+            if not chunk:
+                continue  # empty list
             result = self.item_type.raw_decode(chunk, validation, context)
 
             if isinstance(result, list):
